@@ -929,3 +929,90 @@ Proof.
   unfold read_msa_section in *. rewrite RR.
   unfold read_raw in RS. destruct CP as [[G1 G2] _]. rewrite G1, G2 in RS. exact RS.
 Qed.
+
+(* ------------------------------------------------------------------ *)
+(* alignments for several reference columns: one section per column *)
+Definition section_ok (p : str * list (Z * list str * msa)) : Prop := ref_ok (fst p) /\ Forall entry_ok (snd p).
+Definition blks_of (l : list (str * list (Z * list str * msa))) : list block :=
+  concat (map (fun p => map (blk_of (fst p)) (snd p)) l).
+Definition expected_sections (l : list (str * list (Z * list str * msa))) : list (str * Z * msa_read) :=
+  concat (map (fun p => map (fun e => (fst p, fst (fst e), expected_read (snd e))) (snd p)) l).
+
+Lemma scan_section_from : forall ref ms a, ref_ok ref -> Forall entry_ok ms -> good a ->
+  fold_left read_step (msa_section ref ms) a
+  = mk_racc false None (ra_data a) (rev (map (blk_of ref) ms) ++ ra_blocks a) (ra_meta a).
+Proof.
+  intros ref ms a RO F G. unfold msa_section. cbn [fold_left].
+  rewrite (read_step_skip a []) by (try exact G; reflexivity).
+  rewrite (read_step_skip a (s_msa_ref ++ ref)) by (try exact G; reflexivity).
+  apply scan_blocks; assumption.
+Qed.
+
+Lemma scan_sections : forall l a, Forall section_ok l -> good a ->
+  fold_left read_step (msa_sections l) a
+  = mk_racc false None (ra_data a) (rev (blks_of l) ++ ra_blocks a) (ra_meta a).
+Proof.
+  induction l as [|[ref ms] l IH]; intros a F G.
+  - cbn. destruct a as [er o d b mt]. destruct G as [G1 G2]. cbn in *. subst. reflexivity.
+  - inversion F as [|? ? [RO FE] Fr]; subst. cbn [fst snd] in *.
+    unfold msa_sections, blks_of. cbn [map concat fst snd]. rewrite fold_left_app.
+    rewrite scan_section_from by assumption.
+    fold (msa_sections l). rewrite IH; [|exact Fr|split; reflexivity].
+    cbn [ra_data ra_blocks ra_meta]. fold (blks_of l). rewrite rev_app_distr, <- app_assoc. reflexivity.
+Qed.
+
+Lemma read_msas_blocks_app : forall ref ms rest R, ref_ok ref -> Forall entry_ok ms -> read_msas rest = Ok R ->
+  read_msas (map (blk_of ref) ms ++ rest)
+  = Ok (map (fun e => (ref, fst (fst e), expected_read (snd e))) ms ++ R).
+Proof.
+  intros ref. induction ms as [|[[k stamp] m] ms IH]; intros rest R RO F HR; [exact HR|].
+  inversion F as [|? ? [OK FS] Hr]; subst. cbn [fst snd] in *.
+  destruct (header_parse ref k m _ (msa_okb_ok m OK) RO) as [_ HK].
+  destruct (keys_lookup ref k m) as [A1 A2].
+  cbn [map app fst snd].
+  apply (read_msas_cons _ _ (keys_of ref k m) (show_int k) ref k (expected_read m)).
+  - reflexivity.
+  - exact HK.
+  - exact A1.
+  - exact A2.
+  - apply parse_show_int.
+  - apply msa_body_roundtrip; assumption.
+  - apply IH; assumption.
+Qed.
+
+Lemma read_msas_sections : forall l, Forall section_ok l -> read_msas (blks_of l) = Ok (expected_sections l).
+Proof.
+  induction l as [|[ref ms] l IH]; intros F; [reflexivity|].
+  inversion F as [|? ? [RO FE] Fr]; subst. cbn [fst snd] in *.
+  unfold blks_of, expected_sections. cbn [map concat fst snd].
+  apply read_msas_blocks_app; [exact RO|exact FE|]. apply IH, Fr.
+Qed.
+
+(* SEVERAL REFERENCE COLUMNS: every cognate set of every column comes back under its column and id *)
+Theorem msa_sections_roundtrip : forall l, Forall section_ok l ->
+  closed_pre (msa_sections l) /\ read_msa_section (msa_sections l) = Ok (expected_sections l).
+Proof.
+  intros l F.
+  assert (S : scan (msa_sections l) = mk_racc false None [] (rev (blks_of l)) []).
+  { unfold scan. rewrite scan_sections; [|exact F|split; reflexivity]. cbn [racc0 ra_data ra_blocks ra_meta].
+    rewrite app_nil_r. reflexivity. }
+  split.
+  - unfold closed_pre, good. rewrite S. repeat split.
+  - unfold read_msa_section, read_raw. rewrite S. cbn [ra_err ra_open ra_data ra_blocks ra_meta rev].
+    rewrite rev_involutive. apply read_msas_sections, F.
+Qed.
+
+Theorem aligned_file_roundtrip_refs : forall tbl pretty stamp w l,
+  wl_okb tbl w = true -> Forall section_ok l -> Forall skipline stamp ->
+  exists ls, write pretty (msa_sections l) stamp w = Ok ls
+    /\ read tbl ls = Ok (mk_wl (wl_cols w) (sorted_rows w))
+    /\ read_msa_section ls = Ok (expected_sections l).
+Proof.
+  intros tbl pretty stamp w l H F FS.
+  destruct (msa_sections_roundtrip l F) as [CP RS].
+  destruct (file_roundtrip tbl pretty (msa_sections l) stamp w H CP FS) as [ls [W R]].
+  exists ls. split; [exact W|]. split; [exact R|].
+  destruct (written_blocks _ _ _ _ _ W CP FS) as [data RR].
+  unfold read_msa_section in *. rewrite RR.
+  unfold read_raw in RS. destruct CP as [[G1 G2] _]. rewrite G1, G2 in RS. exact RS.
+Qed.
